@@ -4,6 +4,9 @@ set_option linter.unusedSectionVars false
 namespace TF.Merkle
 open TF.Gen
 
+/-- a small non-injective "hash" on `Nat`, used only by the non-vacuity examples of the Props files -/
+def Hx (a b : Nat) : Nat := (3 * a + 5 * b + 1) % 1000003
+
 section Unique
 variable {D : Type} (H : D → D → D)
 
